@@ -290,6 +290,14 @@ def gen_world(rng, cfg, *, nroots=1, hostile=True, links=True, max_files=24, fam
                 w.add_hardlink(b2s(cand[1]), tgt)
                 src = [e for e in w.entries if e["t"] == "f" and e["p"] == tgt][0]
                 w.add_file(b2s(cand[2]), dict(src["c"]), mt=src.get("mt"))
+        if rng.random() < 0.3:
+            # a RELATIVE link that sorts first in the first root: with -S it is likely to be the retained
+            # member of its class, and its text only resolves from its own directory
+            tgt = rng.choice(regular)
+            lp = s2b(roots[0]) + b"/0lnk"
+            if lp not in names.used and os.path.dirname(s2b(tgt)) != s2b(roots[0]):
+                names.used.add(lp)
+                w.add_symlink(b2s(lp), b2s(os.path.relpath(s2b(tgt), s2b(roots[0]))))
         for _ in range(rng.choice([0, 0, 1, 2])):
             tgt = rng.choice(regular)
             parent = rng.choice(dirs)
